@@ -68,5 +68,34 @@ func runC14(c Case, m *Model) (v Verdict) {
 			}
 		}
 	}
+	// the same port listened to again and again under changing options (ListenTo, stop, ListenTo ...): every listener
+	// gets what a listener on a fresh port gets under its options
+	if hk := len(c.Op) + len(cs); hk%3 == 0 {
+		order := [][]int{{0, 7, 1, 6, 2, 5, 3, 4}, {7, 0, 5, 2, 3, 4, 1, 6}, {6, 1, 7, 7, 0, 3, 5, 2, 4}, {2, 3, 0, 1, 4, 5, 7, 6}}[hk/3%4]
+		res, p := runListenSeq(order, buf, cs)
+		if p != "" {
+			v.Oracle = append(v.Oracle, "panic while a port is listened to repeatedly: "+p+" :: "+short(c.Op))
+			return
+		}
+		v.Counts["reused-port-runs"] += len(order)
+		for i, cfg := range order {
+			var want []liveMsg
+			for _, mm := range all {
+				switch {
+				case mm.b[0] == 0xFE && cfg&2 == 0, mm.b[0] == 0xF8 && cfg&4 == 0, mm.b[0] == 0xF0 && cfg&1 == 0:
+					continue
+				}
+				want = append(want, mm)
+			}
+			if !sameLive(res[i], want) {
+				res2, _ := runListenSeq(order, buf, cs) // wall-clock dependent first stamp: once more
+				if len(res2) == len(order) && !sameLive(res2[i], want) {
+					v.Oracle = append(v.Oracle, fmt.Sprintf("options %d on a port that was listened to before (option sets %v, then this one): received %s, but all-options run minus the disabled classes is %s :: %s",
+						cfg, order[:i], short(showLive(res[i])), short(showLive(want)), short(c.Op)))
+					return
+				}
+			}
+		}
+	}
 	return
 }
